@@ -135,6 +135,9 @@ class C16(Prop):
         return {"kind": "clean", "nbits": nbits, "C": C, "N": N, "g": rng.choice((7, 16, N, N + 3)),
                 "method": rng.choice(("mad", "iqrm")), "thr": rng.choice((2.0, 3.0)), "off": off,
                 "ranges": [[FCH1 + FOFF * 2.2, FCH1 + FOFF * 0.9]] if rng.random() < 0.5 else [],
+                # a custom function, returning Booleans or the 0/1 integers `apply_channel_mask` documents
+                "custom": None if rng.random() < 0.5 else sorted(rng.sample(range(C), k=rng.randint(0, 2))),
+                "custom_dt": rng.choice(("bool", "int", "uint8")), "slope": rng.choice((0, 5)) if nbits == 32 else 0,
                 "mval": rng.choice(mvals), "bad": sorted(rng.sample(range(C), k=rng.randint(0, 2))),
                 "dseed": rng.randrange(1 << 30)}
 
@@ -202,7 +205,7 @@ class C16(Prop):
                 x[:, b] = rng.integers(0, hi, size=N) * (np.arange(N) % 5 == 0) * 3 % (255 if nbits == 8 else 4096)
             else:
                 x[:, b] = 0
-        return x.astype(np.int64) + case.get("off", 0)
+        return x.astype(np.int64) + case.get("off", 0) + case.get("slope", 0) * np.arange(C)[None, :]
 
     def _obs_clean(self, case):
         from sigpyproc.readers import FilReader
@@ -210,13 +213,18 @@ class C16(Prop):
         x = self._data(case)
         p = spfiles.write_fil(d / "in.fil", x, case["nbits"], fch1=FCH1, foff=FOFF, tsamp=1e-3)
         fil = FilReader(str(p))
+        fn = None
+        if case.get("custom") is not None:
+            cust = np.zeros(case["C"], dtype={"bool": bool, "int": np.int64, "uint8": np.uint8}[case["custom_dt"]])
+            cust[case["custom"]] = 1
+            fn = lambda cur, cust=cust: cust       # noqa: E731
         out, m = fil.clean_rfi(method=case["method"], threshold=case["thr"], freq_mask=[tuple(r) for r in case["ranges"]] or None,
-                               mask_value=case["mval"], outfile_name=str(d / "c.fil"), gulp=case["g"], quiet=True)
+                               custom_funcn=fn, mask_value=case["mval"], outfile_name=str(d / "c.fil"), gulp=case["g"], quiet=True)
         fil._file.close()
         h, hl, vals, dl = read_out(out)
         st = fil.chan_stats
         return {"mask": [bool(v) for v in m.chan_mask], "user": [bool(v) for v in m.user_mask],
-                "stats": [bool(v) for v in m.stats_mask], "vals": vals, "nbits": h["nbits"], "nchans": h["nchans"],
+                "stats": [bool(v) for v in m.stats_mask], "custom": [bool(v) for v in m.custom_mask], "vals": vals, "nbits": h["nbits"], "nchans": h["nchans"],
                 "mean": [float(v) for v in st.mean], "freqs": [float(v) for v in fil.header.chan_freqs]}
 
     def _obs_round(self, case):
@@ -283,8 +291,10 @@ class C16(Prop):
             N, C = x.shape
             mask = obs["mask"]
             user = self._user(obs["freqs"], case["ranges"])
-            if obs["user"] != user or any(m != (u or s) for m, u, s in zip(mask, obs["user"], obs["stats"])):
-                return "returned mask is not the union of the user and statistics masks"
+            cst = [c in (case.get("custom") or []) for c in range(C)]
+            if obs["user"] != user or obs.get("custom", cst) != cst or any(
+                    m != (u or s or k) for m, u, s, k in zip(mask, obs["user"], obs["stats"], cst)):
+                return "returned mask is not the union of the user, statistics and custom masks"
             got = np.array(obs["vals"], dtype=np.float64).reshape(N, C)
             if case["mval"] is None:
                 um = [obs["mean"][c] for c in range(C) if not mask[c]]
